@@ -31,7 +31,7 @@ def harnesses(tier):
     hs = []
     N = 4 if tier == 'quick' else 6
     for fmt in (0, 3, 5, 6):
-        hs.append(esccommon.escape('c08_text', fmt, (3 if fmt == 3 else N) if tier == 'quick' else (4 if fmt == 3 else N), tier))
+        hs.append(esccommon.escape('c08_text', fmt, (3 if fmt == 3 else N) if tier == 'quick' else (4 if fmt == 3 else (5 if fmt in (5, 6) else N)), tier))      # opml/itmz at 6 bytes: no verdict in 3000 s (measured)
     hs.append(esccommon.obfchar('c08_text'))
     units = {0: 'repo:opendocument-content.c', 1: 'repo:opendocument-content.c', 2: 'repo:html.c', 3: 'repo:html.c'}
     rm = {0: ['mmd_export_token_tree_opendocument'], 1: ['mmd_export_token_tree_opendocument'], 2: ['mmd_export_token_tree_html'], 3: ['mmd_export_token_tree_html']}
